@@ -826,6 +826,8 @@ func c10Child(ctx *runCtx, spec string) {
 		fmt.Printf("CASE idle %s\n", js)
 		res := c10RunIdleCase(cs)
 		c10ReportIdle(ctx, cs, res)
+	case "revive":
+		c10RunRevive(ctx, idx)
 	default:
 		fmt.Fprintln(os.Stderr, "bad spec", spec)
 		os.Exit(2)
@@ -850,6 +852,9 @@ func c10Run(ctx *runCtx) int {
 	}
 	for _, ic := range c10IdleCases(ctx.tier, ctx.seed) {
 		idle = append(idle, batch{Spec: fmt.Sprintf("idle:%d", ic.Idx), Timeout: 5 * time.Minute})
+	}
+	for i := 0; i < 4; i++ {
+		idle = append(idle, batch{Spec: fmt.Sprintf("revive:%d", i), Timeout: 5 * time.Minute})
 	}
 	// idle cases are timing-sensitive: they run first, without the CPU-bound LRU batches next to them
 	onDeath := func(b batch, res batchResult, tail string) {
